@@ -87,6 +87,11 @@ type Case struct {
 	// stdout pipe is left full and SIGIO (the documented "dump the ledger" signal) is sent, so the tracker
 	// blocks in its dump at its next tick; transactions n.. are streamed meanwhile, then stdout is drained.
 	Stall int `json:"stall,omitempty"`
+	// Trickle: the transactions arrive as a steady trickle (pause_ms between them, shorter than the update
+	// age, for longer than the max age) on ONE partition key: the open batch must be handed to the sink one
+	// tick after the configured batch-flush-max-age although it keeps receiving records (C16), whatever the
+	// relation between the two ages is
+	Trickle bool `json:"trickle,omitempty"`
 	// filled in only inside a reported violation (ignored when a case is run)
 	ObservedLog  []LogEv `json:"observed_log,omitempty"`
 	ObservedNote string  `json:"observed_note,omitempty"`
@@ -324,6 +329,7 @@ type gate struct {
 }
 
 type world struct {
+	firstData bool // the first row change has been streamed (logged once)
 	c  Case
 	mu sync.Mutex
 	t0 time.Time
@@ -417,6 +423,10 @@ func (w *world) beforeData(lsn uint64, text string) <-chan struct{} {
 	stall := w.stallAt != 0 && lsn == w.stallAt
 	isBegin := strings.HasPrefix(text, "BEGIN ")
 	w.quietRef = time.Now() // the stream is moving
+	if !w.firstData && strings.HasPrefix(text, "table ") {
+		w.firstData = true
+		w.addLocked(LogEv{K: "first-data", Lsn: lsn})
+	}
 	if lsn == w.lastMsgLsn && strings.HasPrefix(text, "COMMIT ") && !w.sentAll {
 		w.sentAll, w.sentAt = true, time.Now()
 		w.quietRef = w.sentAt
@@ -1205,12 +1215,54 @@ func trimLog(log []LogEv) []LogEv {
 	return out
 }
 
-func monitor(c Case, r result) []core.Violation {
-	var vs []core.Violation
+// firstFlushMs: milliseconds from the first streamed row to the first sink call (-1: one of them is missing)
+func firstFlushMs(r result) int {
+	t0, t1 := -1.0, -1.0
+	for _, e := range r.Log {
+		if e.K == "first-data" && t0 < 0 {
+			t0 = e.T
+		}
+		if e.K == "call" && t1 < 0 {
+			t1 = e.T
+		}
+	}
+	if t0 < 0 || t1 < 0 {
+		return -1
+	}
+	return int((t1 - t0) * 1000)
+}
+
+func monitor(c Case, r result) (vs []core.Violation) {
 	cv := c
 	cv.ObservedLog = trimLog(r.Log)
 	cv.ObservedNote = fmt.Sprintf("%s; run ended in phase %q, last acknowledgement %s, %d held call(s), stall %q", r.Cmdline, r.Phase, fakepg.LSNString(r.LastAck), r.HeldCalls, r.Stalled)
 	seenSig := map[string]bool{}
+	defer func() {
+		if !c.Trickle {
+			return
+		}
+		// C16 through the real wiring: first row streamed at t0; the batch it opened keeps receiving rows,
+		// so only the max-age rule can flush it: first sink call by t0 + max age + one tick (+ 700 ms slack
+		// for process scheduling; the wrong configuration is seconds late)
+		t0, t1 := -1.0, -1.0
+		for _, e := range r.Log {
+			if e.K == "first-data" && t0 < 0 {
+				t0 = e.T
+			}
+			if e.K == "call" && t1 < 0 {
+				t1 = e.T
+			}
+		}
+		bound := float64(c.MaxAge+c.Tick)/1000 + 0.7
+		if t0 >= 0 && (t1 < 0 || t1-t0 > bound) {
+			late := "never"
+			if t1 >= 0 {
+				late = fmt.Sprintf("after %.0f ms", (t1-t0)*1000)
+			}
+			vs = append(vs, core.Violation{Property: "C16", Signature: "app/steadily-fed-batch-not-flushed-by-max-age",
+				What: fmt.Sprintf("batch-flush-max-age %d ms, batch-flush-update-age %d ms, tick %d ms: the batch opened by the first row reached the sink %s (bound %.0f ms) while rows kept arriving", c.MaxAge, c.UpdateAge, c.Tick, late, bound*1000), Case: cv})
+		}
+	}()
 	add := func(p, sig, what string) {
 		if seenSig[p+sig] {
 			return // one witness per signature and case
@@ -1533,6 +1585,34 @@ func stallShape(rng *rand.Rand) Case {
 	return c
 }
 
+// trickleShape: one table, one worker or several, no held calls: single-row transactions arrive every
+// 15-30 ms (below every update age used) for longer than max age + tick + the monitor's slack.
+func trickleShape(rng *rand.Rand) Case {
+	c := genConfig(rng)
+	c.Mode, c.Trickle = "gen-trickle", true
+	c.Method = []string{"none", "tablename"}[rng.Intn(2)]
+	c.Tick = 20 + rng.Intn(41)
+	c.MaxAge = 100 + rng.Intn(301)
+	if rng.Intn(2) == 0 {
+		c.UpdateAge = 1500 + rng.Intn(2000) // larger than the max age: the max age still bounds the wait
+	} else {
+		c.UpdateAge = 60 + rng.Intn(40)
+	}
+	pause := 15 + rng.Intn(16)
+	lsn := c.S0
+	step := func() uint64 { lsn += uint64(1 + rng.Intn(30)); return lsn }
+	for i, n := 0, (c.MaxAge+c.Tick+900)/pause+1; i < n; i++ {
+		t := Txn{Xid: strconv.Itoa(900 + i), Begin: step()}
+		t.Changes = []Change{{Lsn: step(), Table: tables[0], Op: []string{"", "UPDATE"}[rng.Intn(2)]}}
+		t.Commit = step()
+		if i > 0 {
+			t.PauseMs = pause
+		}
+		c.Txns = append(c.Txns, t)
+	}
+	return c
+}
+
 func genCase(rng *rand.Rand) Case {
 	roll := rng.Intn(16)
 	if roll == 15 {
@@ -1707,7 +1787,10 @@ func init() {
 		for i := 0; i < n; i++ {
 			cases = append(cases, genCase(rng))
 		}
-		rep.Rule = "corpus first (directed shapes: interleaved positions across the 4 GiB boundary, filters incl. a fully filtered last transaction, held sink calls incl. one worker with queue depth 1, the three PutRecords limits, six instances of the stalled-tracker race, each of which exposes a seen/written reordering with probability 1/2), then seeded cases: 7/16 plain, 7/16 with 1-2 held sink calls (slow worker; released after a ledger tick), 1/16 limits (>500 records or >5 MiB with an over-size row), 1/16 stalled progress tracker with an earlier transaction's batch held. 1-6 transactions, 0-4 changes over public.a/b/c and a quoted table, INSERT/UPDATE/DELETE, half with interleaved positions, 1/6 across 0/FFFFFFxx->1/xx, 1/6 high positions, 1/6 whitelist, 1/6 blacklist, 1/4 configured through environment variables. Each case = one run of the REAL BINARY (main.go + app/runner.go wiring) with real flags --workers 1-4, --partition-method (4), --partition-count 1-4, --batcher-routing-method (2), --batch-flush-update-age / --batch-flush-max-age / --batcher-tick-rate 20-60 ms (either age may be the larger), --batch-queue-depth 1-4, --client-buffer-size default/16/256, kinesis --endpoint <fake>. Non-trivial: at least 2 sink calls and (a call was really held, or the stall was achieved, or at least 2 Kinesis partition keys, or a filter removed something); distinct by the case description. No Coq model is evaluated by this component."
+		for i := 0; i < (n+15)/16; i++ { // drawn after the others: their stream of choices is unchanged
+			cases = append(cases, trickleShape(rng))
+		}
+		rep.Rule = "corpus first (directed shapes: interleaved positions across the 4 GiB boundary, filters incl. a fully filtered last transaction, held sink calls incl. one worker with queue depth 1, the three PutRecords limits, six instances of the stalled-tracker race, each of which exposes a seen/written reordering with probability 1/2), then seeded cases: 7/16 plain, 7/16 with 1-2 held sink calls (slow worker; released after a ledger tick), 1/16 limits (>500 records or >5 MiB with an over-size row), 1/16 stalled progress tracker with an earlier transaction's batch held; plus one trickle case per 16 (steady single-row transactions every 15-30 ms on one partition key for longer than the max age, max age 100-400 ms, update age either 60-100 ms or 1.5-3.5 s: C16 through the real flag wiring). 1-6 transactions, 0-4 changes over public.a/b/c and a quoted table, INSERT/UPDATE/DELETE, half with interleaved positions, 1/6 across 0/FFFFFFxx->1/xx, 1/6 high positions, 1/6 whitelist, 1/6 blacklist, 1/4 configured through environment variables. Each case = one run of the REAL BINARY (main.go + app/runner.go wiring) with real flags --workers 1-4, --partition-method (4), --partition-count 1-4, --batcher-routing-method (2), --batch-flush-update-age / --batch-flush-max-age / --batcher-tick-rate 20-60 ms (either age may be the larger), --batch-queue-depth 1-4, --client-buffer-size default/16/256, kinesis --endpoint <fake>. Non-trivial: at least 2 sink calls and (a call was really held, or the stall was achieved, or at least 2 Kinesis partition keys, or a filter removed something); distinct by the case description. No Coq model is evaluated by this component."
 		if _, err := buildBinary(); err != nil {
 			rep.Notes = append(rep.Notes, "every case dropped: the pg-bifrost binary could not be built: "+tail(err.Error(), 1500))
 			rep.Distribution["dropped:build"] += len(cases)
@@ -1808,7 +1891,32 @@ func init() {
 				}
 				rep.Samples = append(rep.Samples, map[string]interface{}{"case": c, "cmdline": r.Cmdline, "log_head": lg})
 			}
-			rep.Violations = append(rep.Violations, monitor(c, r)...)
+			vs := monitor(c, r)
+			if c.Trickle {
+				// the C16 verdict is a latency bound on a child process: a late first call must repeat in two
+				// further runs of the same case before it is reported
+				late := func(vs []core.Violation) bool {
+					for _, v := range vs {
+						if v.Property == "C16" {
+							return true
+						}
+					}
+					return false
+				}
+				for k := 0; k < 2 && late(vs); k++ {
+					core.Bump(rep, "obs:trickle-reruns")
+					if r2 := runCase(c); r2.Infra == "" {
+						if vs2 := monitor(c, r2); !late(vs2) {
+							vs = vs2
+						}
+					}
+				}
+				if ms := firstFlushMs(r); ms >= 0 {
+					core.Bump(rep, "obs:trickle-cases")
+					rep.Distribution["obs:trickle-first-flush-ms-over-max-age-plus-tick(sum)"] += ms - c.MaxAge - c.Tick
+				}
+			}
+			rep.Violations = append(rep.Violations, vs...)
 		}
 		return "(* APP has no model-side cases: implementation-level monitors only *)\n"
 	}})
